@@ -110,7 +110,11 @@ def random_history(rng, n_calls, two=False, cfg_ids=("A", "B", "C"), run_ms=(0, 
         if sym[0] == "setup":
             live[obj] = True
         elif sym[0] == "finalize":
-            live[obj] = False
+            # as built, finalize on any object deletes the one native simulation (finding F6): the random driver
+            # does not go on to dereference it through the other object (undefined behaviour can hang for the
+            # whole time-out); the exhaustive two-object histories still cover those cases
+            for o in objs:
+                live[o] = False
     return calls
 
 
